@@ -277,7 +277,7 @@ def r3_prefilter(cx):
     sites = [(cx.repo.module(CF), "AllowFilter.parse_line"), (cx.repo.module(CF), "AllowFilter.filter_content"), (sf, "find.__call__"), (cx.repo.module(FL), "apply_filters")]
     for m, q in sites:
         fn = m.func(q, "C07.R3")
-        cmps = [n for n in walk_body(fn.body) if isinstance(n, ast.Compare) and len(n.ops) == 1 and isinstance(n.ops[0], ast.In) and
+        cmps = [n for n in walk_body(fn.body) if isinstance(n, ast.Compare) and len(n.ops) == 1 and isinstance(n.ops[0], (ast.In, ast.NotIn)) and
                 not (isinstance(parent(n), ast.comprehension))]
         cmps = [n for n in cmps if any(k in U(n.left) for k in ("a_key", "p", "f", "key"))]
         uses_re = [x for x in find_calls(fn.body) if (call_name(x) or "").startswith("re.") or call_attr(x) in ("search", "match", "fullmatch", "findall")]
